@@ -244,11 +244,11 @@ Section Final.
   Qed.
 
   Theorem reach_hist_sound_det t0 (ops : list (op T)) :
-    0 < t0 -> det_history (init_world Fine t0) ops ->
+    det_history (init_world Fine t0) ops ->
     disk_inv (run_ops ops (init_world Fine t0)) /\ hist_sound (run_ops ops (init_world Fine t0)).
   Proof.
-    intros Ht0 Hd. apply history_inv; [|apply hist_sound_init|exact Hd].
-    apply (InvProofs.c07_init T teqb hc). exact Ht0.
+    intros Hd. apply history_inv; [|apply hist_sound_init|exact Hd].
+    apply (InvProofs.c07_init T teqb hc).
   Qed.
 
   (* ---------- G3 ---------- *)
@@ -310,7 +310,7 @@ Section Final.
   Qed.
 
   Theorem every_history t0 (ops : list (op T)) goal w1 tbl pack :
-    0 < t0 -> det_history (init_world Fine t0) ops ->
+    det_history (init_world Fine t0) ops ->
     init_dir T (run_ops ops (init_world Fine t0)) = Ok (w1, tbl) ->
     get_nodes T w1 RULES_PATH goal = Ok pack ->
     Forall det_node (p_nodes pack) ->
@@ -319,7 +319,7 @@ Section Final.
       content_at (o_world (build (run_ops ops (init_world Fine t0)) RULES_PATH goal)) t =
       content_at (scratch_world (run_ops ops (init_world Fine t0)) pack) t.
   Proof.
-    intros Ht0 Hd. destruct (reach_hist_sound_det t0 ops Ht0 Hd) as [Hinv Hs].
+    intros Hd. destruct (reach_hist_sound_det t0 ops Hd) as [Hinv Hs].
     intros Hi Hg Hdet. eapply incremental_equals_scratch; eauto.
   Qed.
 End Final.
@@ -404,7 +404,7 @@ Proof. vm_compute. split; reflexivity. Qed.
 (* G4 as literally stated (only the LAST plan is DET) is false *)
 Theorem c01_every_history_sym_refuted :
   ~ (forall t0 (ops : list (op sym)) goal w1 tbl pack,
-       0 < t0 -> Forall (safe_op sym) ops ->
+       Forall (safe_op sym) ops ->
        init_dir sym (run_sym ops (init_world Fine t0)) = Ok (w1, tbl) ->
        get_nodes sym w1 RULES_PATH goal = Ok pack ->
        Forall det_node (p_nodes pack) ->
@@ -414,7 +414,7 @@ Theorem c01_every_history_sym_refuted :
          content_at (scratch_world (run_sym ops (init_world Fine t0)) pack) t).
 Proof.
   intro H. apply cx_differs.
-  apply (H 1 cx_ops None cx_w1 cx_tbl cx_pack); [reflexivity | exact cx_safe | exact cx_init | exact cx_nodes
+  apply (H 1 cx_ops None cx_w1 cx_tbl cx_pack); [exact cx_safe | exact cx_init | exact cx_nodes
                                                  | exact cx_det | exact cx_ok | exact cx_target].
 Qed.
 
@@ -425,7 +425,7 @@ Proof.
   intro H. apply cx_differs.
   apply (incremental_equals_scratch sym sym_eqb SContent SList SRule sym_eqb_spec SContent_inj SList_inj SRule_inj
            cx_w RULES_PATH None cx_w1 cx_tbl cx_pack).
-  - apply (reach_inv sym sym_eqb SContent sym_eqb_spec SList SRule 1 cx_ops); [reflexivity | exact cx_safe].
+  - apply (reach_inv sym sym_eqb SContent sym_eqb_spec SList SRule 1 cx_ops); exact cx_safe.
   - exact H.
   - exact cx_init.
   - exact cx_nodes.
@@ -436,9 +436,9 @@ Qed.
 
 Theorem reach_hist_sound_refuted :
   ~ (forall t0 (ops : list (op sym)),
-       0 < t0 -> Forall (safe_op sym) ops -> hist_sound_sym (run_sym ops (init_world Fine t0))).
+       Forall (safe_op sym) ops -> hist_sound_sym (run_sym ops (init_world Fine t0))).
 Proof.
-  intro H. apply reach_hist_sound_refuted_core. apply (H 1 cx_ops); [reflexivity | exact cx_safe].
+  intro H. apply reach_hist_sound_refuted_core. apply (H 1 cx_ops); exact cx_safe.
 Qed.
 
 (* G2's "build preserves hist_sound" without the hypothesis that the plan is DET is false: the first
@@ -456,13 +456,13 @@ Theorem hist_sound_build_refuted :
 Proof.
   intro H. apply reach_hist_sound_refuted_core.
   assert (disk_inv sym_eqb SContent cx_w0) as Hinv0.
-  { apply (reach_inv sym sym_eqb SContent sym_eqb_spec SList SRule 1 cx_ops0); [reflexivity | repeat constructor]. }
+  { apply (reach_inv sym sym_eqb SContent sym_eqb_spec SList SRule 1 cx_ops0); repeat constructor. }
   assert (hist_sound_sym cx_w0) as Hs0.
   { apply (reach_hist_sound_det sym sym_eqb SContent SList SRule sym_eqb_spec SContent_inj SList_inj SRule_inj 1 cx_ops0);
-      [reflexivity | cbn; auto]. }
+      cbn; auto. }
   rewrite cx_w_eq.
   apply (user_op_hist_sound sym sym_eqb SContent SList SRule sym_eqb_spec SContent_inj SList_inj SRule_inj).
-  - apply (reach_inv sym sym_eqb SContent sym_eqb_spec SList SRule 1 (cx_ops0 ++ [OBuild None])); [reflexivity | repeat constructor].
+  - apply (reach_inv sym sym_eqb SContent sym_eqb_spec SList SRule 1 (cx_ops0 ++ [OBuild None])); repeat constructor.
   - cbn [Ops.apply_op fst]. apply (hist_sound_same sym sym_eqb SContent SList SRule (o_world (build_sym cx_w0 RULES_PATH None))); [reflexivity|].
     apply H; assumption.
   - exact I.
@@ -595,7 +595,7 @@ Section Results.
      is false (reach_hist_sound_refuted): a build whose plan is not DET can record a false entry
      in the history of a DET rule. *)
   Theorem reach_hist_sound_partial : forall t0 (ops : list (op T)),
-    0 < t0 -> det_history T teqb hc hl hr (init_world Fine t0) ops ->
+    det_history T teqb hc hl hr (init_world Fine t0) ops ->
     disk_inv teqb hc (run_ops ops (init_world Fine t0)) /\ hist_sound (run_ops ops (init_world Fine t0)).
   Proof. exact (reach_hist_sound_det T teqb hc hl hr teqb_spec hc_inj hl_inj hr_inj). Qed.
 
@@ -662,7 +662,7 @@ Theorem hist_sound_build_partial_sym : forall (w : world sym) goal,
 Proof. exact (hist_sound_build_partial sym sym_eqb SContent SList SRule sym_eqb_spec SContent_inj SList_inj SRule_inj). Qed.
 
 Theorem reach_hist_sound_partial_sym : forall t0 (ops : list (op sym)),
-  0 < t0 -> det_history_sym (init_world Fine t0) ops ->
+  det_history_sym (init_world Fine t0) ops ->
   disk_inv sym_eqb SContent (run_sym ops (init_world Fine t0)) /\ hist_sound_sym (run_sym ops (init_world Fine t0)).
 Proof. exact (reach_hist_sound_partial sym sym_eqb SContent SList SRule sym_eqb_spec SContent_inj SList_inj SRule_inj). Qed.
 
@@ -695,7 +695,7 @@ Qed.
    plan the content is the from-scratch content.
    The statement with only the LAST plan DET is false: c01_every_history_sym_refuted. *)
 Theorem c01_every_history_sym_partial : forall t0 (ops : list (op sym)) goal w1 tbl pack,
-  0 < t0 -> det_history_sym (init_world Fine t0) ops ->
+  det_history_sym (init_world Fine t0) ops ->
   init_dir sym (run_sym ops (init_world Fine t0)) = Ok (w1, tbl) ->
   get_nodes sym w1 RULES_PATH goal = Ok pack ->
   Forall det_node (p_nodes pack) ->
